@@ -191,7 +191,7 @@ def tlc_mc(module, cfg, workers=8, env=None, heap="8g", timeout=7200, extra=(), 
     mv = re.search(r"Error: Action property (\S+) is violated", out)
     if mv:
         res["violated"] = mv.group(1)
-    mv = re.search(r"Error: Temporal properties were violated", out)
+    mv = re.search(r"Error: Temporal propert(y \S+ was|ies were) violated", out)
     if mv:
         res["violated"] = "temporal"
     if not res["ok"] and res["violated"] is None:
